@@ -33,7 +33,11 @@ def _is_pair_loop(fn, loop):
             if isinstance(a, ast.Assign) and len(a.targets) == 1 and isinstance(a.targets[0], ast.Name) and a.targets[0].id == it.id:
                 it = a.value
                 break
-    return isinstance(it, ast.Call) and call_name(it) == 'product'
+    if isinstance(it, ast.Call) and call_name(it) == 'product':
+        return True
+    # [(d, a) for d in donors for a in accepters]: the same donor-major product written as a comprehension
+    return isinstance(it, (ast.ListComp, ast.GeneratorExp)) and len(it.generators) == 2 and isinstance(it.elt, ast.Tuple) and len(it.elt.elts) == 2 \
+        and not any(g.ifs for g in it.generators) and [unparse(e) for e in it.elt.elts] == [unparse(g.target) for g in it.generators]
 
 
 def run(chk, repo):
